@@ -809,6 +809,9 @@ func (h *c12H) eval(c *c12Case) {
 		defer func() {
 			if x := recover(); x != nil {
 				crashed = fmt.Sprint(x)
+				if e, ok := x.(*log.Entry); ok {
+					crashed = "log.Panic: " + e.Message
+				}
 			}
 		}()
 		out, err = w(obiseq.BioSequenceSlice{obiseq.NewBioSequence("read", []byte(b.read), "")})
